@@ -1213,3 +1213,55 @@ Proof.
   destruct (quiet_run ops _ (quiet_init att) Hoff) as (H1 & H2 & H3 & H4).
   unfold status_bits. subst s. rewrite H1, H2, H3, H4. reflexivity.
 Qed.
+
+(* ------------------------------------------------------------------------------------------------- *)
+(* C19: the sweep calculation a channel-1 trigger performs, in documented terms *)
+Lemma nr14_freq_lt s v : sqFreq (nr14_freq s v) < 2048.
+Proof.
+  unfold nr14_freq. psimpl.
+  change 0x00ff with (N.ones 8). change 7 with (N.ones 3). rewrite !N.land_ones, N.shiftl_mul_pow2.
+  change (2 ^ 8) with 256. change (2 ^ 3) with 8.
+  assert (Ha : sqFreq (ch1 s) mod 256 < 256) by (apply N.mod_lt; discriminate).
+  assert (Hk : v mod 8 < 8) by (apply N.mod_lt; discriminate).
+  set (a := sqFreq (ch1 s) mod 256) in *. set (k := v mod 8) in *.
+  (* a < 2^8 and k * 2^8 have disjoint bits: the OR is below 2^11 *)
+  assert (H : N.lor a (k * 256) < 2 ^ 11).
+  { destruct (N.eq_dec (N.lor a (k * 256)) 0) as [->|Hne]; [reflexivity|].
+    apply N.log2_lt_pow2; [lia|]. rewrite N.log2_lor.
+    apply N.max_lub_lt.
+    - destruct (N.eq_dec a 0) as [->|Ha0]; [reflexivity|]. apply N.log2_lt_pow2; lia.
+    - destruct (N.eq_dec (k * 256) 0) as [->|Hk0]; [reflexivity|]. apply N.log2_lt_pow2; lia. }
+  exact H.
+Qed.
+
+Definition sweep_calc_overflows (f shift : N) (increase : bool) : bool :=
+  (0 <? shift) && increase && (2047 <? f + f / 2 ^ shift).
+
+Theorem trigger_overflow_spec s v :
+  trigger_overflow Ch1 s v =
+  sweep_calc_overflows (sqFreq (nr14_freq s v)) (swShift (sw1 s)) (swIncrease (sw1 s)).
+Proof.
+  cbn [trigger_overflow]. unfold trig_overflows, sweep_calc_overflows, calc_nf, trig_sweep. psimpl.
+  pose proof (nr14_freq_lt s v) as Hf. set (f := sqFreq (nr14_freq s v)) in *.
+  destruct (0 <? swShift (sw1 s)); cbn [andb]; [|reflexivity].
+  rewrite N.shiftr_div_pow2.
+  assert (Hd : f / 2 ^ swShift (sw1 s) <= f) by (apply N.div_le_upper_bound; [apply N.pow_nonzero; discriminate|];
+    pose proof (N.pow_nonzero 2 (swShift (sw1 s)) ltac:(discriminate)); set (p := 2 ^ swShift (sw1 s)) in *; nia).
+  set (d := f / 2 ^ swShift (sw1 s)) in *.
+  destruct (swIncrease (sw1 s)); cbn [andb].
+  - unfold add16. rewrite N.mod_small by (clearbody d f; clear - Hf Hd; lia). reflexivity.
+  - unfold add16, sub16.
+    assert (E : (f + (0 + 65536 - d mod 65536) mod 65536) mod 65536 = f - d) by (clearbody d f; clear - Hf Hd; lia).
+    rewrite E. apply N.ltb_ge. clearbody d f. clear - Hf Hd. lia.
+Qed.
+
+(* C19: a trigger of channel 1 whose immediate sweep calculation overflows leaves the channel off (and it turns
+   on exactly when the DAC is on and the calculation does not overflow) - from every state *)
+Theorem trigger_sweep_overflow s v :
+  is_on s = true -> trig_bit v = true ->
+  en1 (apu_bus_write s 0xFF14 v) =
+  sqDac (ch1 s) && negb (sweep_calc_overflows (sqFreq (nr14_freq s v)) (swShift (sw1 s)) (swIncrease (sw1 s))).
+Proof.
+  intros Hon Ht. change (apu_bus_write s 0xFF14 v) with (WriteNR14 s v).
+  rewrite en1_W14, Hon, Ht. rewrite <- trigger_overflow_spec. reflexivity.
+Qed.
